@@ -2,6 +2,7 @@ import PsV.Proofs.FitsRead
 import PsV.Proofs.FitsReadState
 import PsV.Proofs.FitsEvalBridge
 import PsV.Proofs.FitsDecode
+import PsV.Proofs.DoubleValue
 import PsV.Props.C04
 import PsV.Props.C05
 /-!
@@ -424,6 +425,15 @@ example : KeyMono (fun b => ((dkey b : Int) : Rat)) := by
   intro a b _ _ hab
   show ((dkey a : Int) : Rat) ≤ ((dkey b : Int) : Rat)
   exact_mod_cast hab
+
+/-- … in particular with the knots read as the real numbers the doubles denote (`valQ`), in exact arithmetic: the
+    hypothesis `hwf : T.WF` of the evaluation-correctness theorems (C01, C02) holds for every accepted table. -/
+theorem C07_accepted_eval_wf_real (E : Ext) (f : Fits) (t : Fits.Table) (h : readFixed E f = .ok t)
+    (cf : UInt32 → Rat) (mem : Nat → Int → Rat) (memC : Int → Rat) :
+    _root_.PsV.Table.WF (α := Rat) (t.evalView valQ cf mem memC) :=
+  C07_accepted_eval_wf E f t h valQ valQ_keyMono cf mem memC
+
+example : ∃ t, readFixed exExt exValid = .ok t := ⟨_, exValid_read⟩
 
 /-! ## bytes -/
 
